@@ -373,4 +373,14 @@ def rules_for(pid):
 
 
 def thorough_extra(ctx, pid):
-    return []
+    """thorough tier: positive controls for every rule of the property (scratch copies outside /repo and /verif)"""
+    import controls
+    ids = {rid for rid, _ in PROPS[pid]['rules']}
+    out = []
+    if pid in ('C19', 'C07'):
+        out.append(s_state.s5_deps(ctx))     # statics / global effects of the runtime dependency closure
+    if pid in ('C07', 'C01', 'C03'):
+        from rules import e3_witness
+        out.append(e3_witness.run(ctx, pid))
+    out.append(controls.run_controls(ctx, ids))
+    return out
